@@ -100,7 +100,7 @@ class _R:
                 self.w(self.eol())
                 self.feats.add('blank_line')
             elif k == 1:
-                self.w(cs.pick([' ', '   ', '\t', ' \t ', '\x0c']) + self.eol())
+                self.w(cs.pick([' ', '   ', '\t', '\t ', '\x0c']) + self.eol())  # never space-then-tab: outside C01's domain
                 self.feats.add('blank_line_ws')
             else:
                 self.w(cs.pick(['', ' ', '        ', '\t', indent, indent + '  ']) + cs.pick(COMMENTS) + self.eol())
